@@ -126,4 +126,18 @@ def isEventsK8s (r : Resource) : Bool := eventsK8sSel.checkWith false false r
 /-- `Selector.check(resource)` -/
 def Selector.check (s : Selector) (r : Resource) : Bool := s.checkWith (isEvents r) (isEventsK8s r) r
 
+/-- `Selector.is_specific`: the specification names a resource (vs. a category, EVERYTHING, a callable) -/
+def Selector.isSpecific (s : Selector) : Bool :=
+  s.kind.isSome || s.shortcut.isSome || s.plural.isSome || s.singular.isSome ||
+    (match s.anyName with | some (.name _) => true | _ => false)
+
+/-- `Selector.select(resources)`: which of the cluster's resources are WATCHED for the specification -- the
+    resources that pass `check`; for a specification that names a resource the core v1 ones hide the others
+    ("pods" vs. pods.metrics.k8s.io). Handlers are NOT selected through this (`_matches_resource` asks `check`
+    alone): `selector_served_gap_witness`, finding C15-F11. -/
+def Selector.select (s : Selector) (rs : List Resource) : List Resource :=
+  let result := rs.filter s.check
+  let v1only := result.filter (fun r => r.group == "")
+  if s.isSpecific && !v1only.isEmpty then v1only else result
+
 end Kopf.C15
